@@ -239,3 +239,96 @@ def run(ctx):
                     res.ok({"function": fpath, "refusal_line": c.line, "depends_on": vec, "normaliser_runs_first": True}, nontrivial=True)
     res.floor("refusals behind a discarding normaliser", nd, ctx.table("floors").get("mode_discard", 0))
     return res
+
+
+def rawfield(pid):
+    """R-RAWFIELD: the parsers hand on what the file says.  A parsed field of DirEntry / Header is replaced by another
+    value only in the listed normalisations, each under its listed condition.  Any other replacement makes the
+    library see something the file does not say (a chain start forgotten, a count trusted that permissive mode
+    documents as ignored) - whatever the mode."""
+    def run(ctx):
+        res = RuleResult("R-RAWFIELD(%s)" % pid, "every value that DirEntry::read_from / Header::read_from put into the parsed struct is the value read from the file, or one of the listed normalisations under its listed condition")
+        tbl = ctx.table("rawfield").get("readers", {})
+        n = 0
+        for fpath, spec in tbl.items():
+            f = ctx.fx.fns.get(fpath)
+            if f is None:
+                res.gone.append(fpath)
+                continue
+            pr = Prov(f)
+            g = guards(ctx, f)
+            names = {nm: l for l, nm in f.debug_names().items()}
+            # what was read from the file: results of calls on the reader, and buffers handed to them by &mut
+            from dataflow import forward_taint, rv_places
+            v_ = view(ctx, f)
+            seeds = set()
+            for c_ in v_.calls.values():
+                if any("param:reader" in pr.operand(a_) for a_ in c_.term["args"]):
+                    if not c_.term["dest"]["proj"]:
+                        seeds.add(c_.term["dest"]["local"])
+                    for a_ in c_.term["args"]:
+                        if a_["k"] in ("copy", "move") and not a_["place"]["proj"]:
+                            cur_ = [a_["place"]["local"]]
+                            for _hop in range(6):
+                                nxt_ = []
+                                for l_ in cur_:
+                                    for d_ in pr.defs.get(l_, []):
+                                        if d_[1] == "t" or len(d_) < 3 or d_[2].get("s") != "assign":
+                                            continue
+                                        rv_ = d_[2]["rv"]
+                                        if rv_["r"] in ("ref", "rawptr"):
+                                            seeds.add(rv_["place"]["local"])
+                                            if any(e_["p"] == "deref" for e_ in rv_["place"]["proj"]):
+                                                nxt_.append(rv_["place"]["local"])     # a re-borrow: keep going to the owner
+                                        elif rv_["r"] in ("use", "cast") and rv_["op"]["k"] in ("copy", "move"):
+                                            nxt_.append(rv_["op"]["place"]["local"])
+                                cur_ = nxt_
+                                if not cur_:
+                                    break
+            from_file = forward_taint(f, seeds, through_calls=True)
+
+            def is_raw(d):
+                if d is None:
+                    return False
+                if d[1] == "t":
+                    t_ = d[2] if len(d) > 2 else f.blocks[d[0]]["term"]
+                    return any(a_["k"] in ("copy", "move") and a_["place"]["local"] in from_file for a_ in t_.get("args", [])) or d[0] in [c_.bb for c_ in v_.calls.values() if any("param:reader" in pr.operand(a_) for a_ in c_.term["args"])]
+                st_ = d[2]
+                return st_.get("s") == "assign" and any(p_["local"] in from_file for p_ in rv_places(st_["rv"]))
+            for bb, blk in enumerate(f.blocks):
+                for i, st in enumerate(blk["stmts"]):
+                    if not (st["s"] == "assign" and st["rv"]["r"] == "aggregate" and st["rv"].get("adt") == spec["struct"]):
+                        continue
+                    for o, fname in zip(st["rv"]["ops"], st["rv"]["fields"]):
+                        p = pr.operand(o)
+                        m = re.match(r"^var:(\w+)$", p)
+                        defs = []
+                        if m and m.group(1) in names:
+                            l = names[m.group(1)]
+                            for d in pr.defs.get(l, []):
+                                defs.append((pr._def(d, 1, (l,)), ("t", d[0]) if d[1] == "t" else ("s", d[0], d[1]), d))
+                        else:
+                            raw_op = o["k"] in ("copy", "move") and o["place"]["local"] in from_file
+                            defs.append((p if not raw_op else "param:reader " + p, ("s", bb, i), None))
+                        for (dp, node, d) in defs:
+                            if "param:reader" in dp or is_raw(d):
+                                n += 1
+                                res.ok({"reader": fpath.split("::")[-2], "field": fname, "value": "as read"})
+                                continue
+                            if fname in spec.get("computed", []) or re.match(r"^repeat\(", dp):
+                                continue
+                            n += 1
+                            rows = [r for r in spec["normalisations"] if r["field"] == fname and re.search(r["value"], dp)]
+                            atoms = g.atoms_at(node)
+                            okrow = [r for r in rows if any(re.search(r["when"], a) for a in atoms)]
+                            key = "R-RAWFIELD/%s/%s" % (fpath, fname)
+                            if okrow:
+                                res.ok({"reader": fpath.split("::")[-2], "field": fname, "value": dp[:40], "normalisation": okrow[0]["why"]}, nontrivial=True)
+                            else:
+                                line = d[2]["span"]["line"] if d is not None and len(d) > 2 and isinstance(d[2], dict) and "span" in d[2] else st["span"]["line"]
+                                res.fail(Finding(res.rule, key + "/unlisted-normalisation", "%s replaces the parsed `%s` by %s (line %d) outside the listed normalisations%s: the library then works with a value the file does not contain (conditions there: %s)" % (
+                                    fpath.split("::")[-2] + "::read_from", fname, dp[:50], line, (" (listed for this field: " + "; ".join(r["why"] for r in spec["normalisations"] if r["field"] == fname) + ")") if any(r["field"] == fname for r in spec["normalisations"]) else "",
+                                    "; ".join(a[:60] for a in atoms[-3:]) or "none"), f, (d[2]["span"] if d is not None and len(d) > 2 and isinstance(d[2], dict) and "span" in d[2] else st["span"])))
+        res.floor("parsed field definitions", n, ctx.table("floors").get("rawfield_defs", 0))
+        return res
+    return run
